@@ -18,6 +18,7 @@ package reservation
 
 import (
 	"fmt"
+	"strings"
 	"testing"
 
 	"k8s.io/apimachinery/pkg/util/sets"
@@ -463,6 +464,41 @@ func TestVerifC05Fit(t *testing.T) {
 			if !accepted && fits && fitsInner && fitsPods {
 				c.Count("converse_misses_fit_rejected", 1)
 			}
+			// The fit check only answers a question. Afterwards the reservation must still report as allocated
+			// the summed requests of its assigned pods (quantities held in apimachinery's big-decimal form --
+			// a binary suffix with a fraction such as 1.5Gi, values beyond int64 -- share their digits between
+			// copies of the Quantity struct), and asking the same question again must again satisfy
+			// accepted => fits.
+			for _, n := range dimList {
+				if q, ok := ri.Allocated[n]; ok && c05BigDecimalForm(q) {
+					c.Count("fit_allocated_in_big_decimal_form", 1)
+					if victims > 0 {
+						c.Count("fit_allocated_in_big_decimal_form_with_assigned_victims", 1)
+					}
+					break
+				}
+			}
+			names := map[corev1.ResourceName]bool{}
+			for n := range ri.Allocated {
+				names[n] = true
+			}
+			for n := range allocatedSum {
+				names[n] = true
+			}
+			c.Count("fit_ledger_checks_after_fit", 1)
+			if victims > 0 {
+				c.Count("fit_ledger_checks_after_fit_with_assigned_victims", 1)
+			}
+			for n := range names {
+				got, want := ri.Allocated[n], allocatedSum[n]
+				if got.Cmp(want) != 0 {
+					c.Fail("C05/ledger/allocated-changed-by-fit-check", "after %s the reservation reports Allocated[%s]=%s but its %d assigned pods request %s (preemptible %s)", entry, n, got.String(), k, want.String(), c05RL(preemptible))
+				}
+			}
+			again := fitsReservation(req, ri, preemptible, false, ignoredResources, ignoredGroups)
+			if len(again) == 0 && !(fits && fitsInner) {
+				c.Fail("C05/fit/over-reserved", "a repeated %s call accepted a pod that does not fit the restricted reservation:%s", entry, why)
+			}
 			if c.K < 3 {
 				c.Sample(map[string]any{"reserved": c05RL(alloc), "allocated": c05RL(allocatedSum), "preemptible": c05RL(preemptible), "stays": c05RL(used), "request": c05RL(req), "victim_mode": mode, "accepted": accepted})
 			}
@@ -470,6 +506,11 @@ func TestVerifC05Fit(t *testing.T) {
 }
 
 func c05QS(q resource.Quantity) string { return q.String() }
+
+// c05BigDecimalForm: the quantity is held in apimachinery's big-decimal form (not as a scaled int64).
+func c05BigDecimalForm(q resource.Quantity) bool {
+	return !strings.Contains(fmt.Sprintf("%#v", q), "(*inf.Dec)(nil)")
+}
 
 // c05Lot: "a lot" of a resource (far more than any generated reservation holds of it, small enough that sums
 // stay exact and below the big node).
